@@ -429,6 +429,11 @@ class NumpyConverter(object):
             assert tracefield in segyio.tracefield.keys.values()
             assert header_array.shape == data_array[:, :, 0].shape
 
+        # Header arrays are stored as 32-bit integers, in ascending header-word order (the order the reader assumes)
+        self.trace_headers = collections.OrderedDict(
+            (tracefield, header_array.astype(np.int32))
+            for tracefield, header_array in sorted(self.trace_headers.items()))
+
         self.data_array = data_array
 
     def __enter__(self):
